@@ -1253,7 +1253,20 @@ def r08_12_standard_instances_are_unwrapped(ctx: Ctx) -> RuleResult:
             if not ctor_calls:
                 rr.fail(f.qual, "no constructor call found in the factory (not decided)", ctx.loc(f))
                 continue
-            if unwrap is not None and all(unwrap[0].lineno < k.lineno for k in ctor_calls):
+            partial_branch = None
+            if unwrap is not None and unwrap[1]:
+                # the unwrap must cover every way the variable is filled: if it stands under a further condition (one arm of the
+                # template test), every assignment of the variable from a parser has to stand under that condition as well
+                extra = [(a, op, b) for a, op, b in facts_at(unwrap[0]) if not (op == "truthy" and a.replace(" ", "").startswith("isinstance("))]
+                if extra:
+                    for n in own_nodes(f.node):
+                        if isinstance(n, ast.Assign) and n is not unwrap[0] and any(isinstance(t, ast.Name) and t.id == unwrap[1] for t in n.targets) and isinstance(n.value, ast.Call):
+                            fa = facts_at(n)
+                            if not all(e in fa for e in extra):
+                                partial_branch = n
+            if partial_branch is not None:
+                rr.fail(f.qual, f"the unwrapping of a public {c.name} stands under `{' and '.join(a for a, _o, _b in extra)[:80]}`, but `{unparse(partial_branch)[:70]}` fills the variable on another path: there a standard pattern letter leaves an object without parse_partial as the underlying pattern (AttributeError when the pattern is embedded and parsed)", ctx.loc(f, partial_branch))
+            elif unwrap is not None and all(unwrap[0].lineno < k.lineno for k in ctor_calls):
                 rr.ok({"factory": f.qual, "unwraps": unparse(unwrap[0])[:70]})
             else:
                 rr.fail(f.qual, f"the parser can return a public {c.name} (standard pattern letters) but the factory stores it as the underlying partial pattern without taking its `_underlying_pattern`: the stored object has no parse_partial", ctx.loc(f, ctor_calls[0]))
@@ -1384,4 +1397,31 @@ def r08_16_sentinel_instants_stay_inside(ctx: Ctx) -> RuleResult:
                     rr.ok({"function": f.qual, "use": unparse(par)[:60]})
                 else:
                     rr.fail(f.qual, f"`{unparse(par)[:80] if par is not None else unparse(n)}` hands out the internal sentinel `{n.func.attr}()`: callers receive an Instant whose `_is_valid` is False", ctx.loc(f, n))
+    return rr
+
+
+@rule("C08")
+def r08_17_the_failed_result_is_the_one_converted(ctx: Ctx) -> RuleResult:
+    """`ParseResult.convert_error(T)` re-types a FAILURE for another result type and raises RuntimeError when called on a success.
+    In `if not r.success: return q.convert_error(T)` the converted result must be the one just found to have failed: converting
+    the neighbouring (successful) result raises out of parse for exactly the texts whose other half is valid."""
+    rr = RuleResult("R08.17", "a failure is propagated by converting the result whose failure was just tested (convert_error on the neighbouring, successful result raises RuntimeError)", min_instances=3)
+    M = ctx.M
+    for f in sorted(set(M.func_of_node.values()), key=lambda x: x.qual):
+        if isinstance(f.node, ast.Lambda) or not f.mod.rel.startswith(TEXT):
+            continue
+        for n in own_nodes(f.node):
+            if not (isinstance(n, ast.Call) and isinstance(n.func, ast.Attribute) and n.func.attr == "convert_error" and isinstance(n.func.value, ast.Name)):
+                continue
+            rr.inst()
+            v = n.func.value.id
+            facts = facts_at(n)
+            failed = {a.split(".")[0] for a, op, b in facts if op == "falsy" and a.endswith(".success")}
+            succeeded = {a.split(".")[0] for a, op, b in facts if op == "truthy" and a.endswith(".success")}
+            if v in failed:
+                rr.ok({"fn": f.qual, "converts": v})
+            elif failed and v not in failed:
+                rr.fail(f.qual, f"`{unparse(n)[:70]}` converts `{v}` on the path where `{sorted(failed)[0]}` has failed{' (and ' + v + ' succeeded)' if v in succeeded else ''}: convert_error on a successful result raises RuntimeError out of parse", ctx.loc(f, n))
+            else:
+                rr.ok()  # no success test on this path (the result is known to have failed by construction)
     return rr
